@@ -451,6 +451,10 @@ def generic_in_process(desc):
         return "violation", f"raised {type(ex).__name__}: {ex}"
     if "raises" in exp:
         return "violation", "returned normally"
+    if exp.get("assembly"):
+        got, want, size_ok = res
+        ok = size_ok and got[: len(want)] == want and len(got) >= len(want)
+        return ("ok", "match") if ok else ("violation", f"assembled read: {len(got)} bytes, expected {len(want)}")
     if "len" in exp and len(res) != exp["len"]:
         return "violation", f"length {len(res)} != {exp['len']}"
     if "min_len" in exp and not (exp["min_len"] <= len(res) <= exp["max_len"]):
